@@ -615,8 +615,10 @@ class X:
         """(python constant,) if v is a concrete literal"""
         if v.k == "str" and z3.is_string_value(v.t):
             return (smt._z3str_to_py(v.t),)
-        if v.k == "int" and z3.is_int_value(v.t):
-            return (v.t.as_long(),)
+        if v.k == "int":
+            t = v.t if z3.is_int_value(v.t) else z3.simplify(v.t)
+            if z3.is_int_value(t):
+                return (t.as_long(),)
         if v.k == "bool" and (z3.is_true(v.t) or z3.is_false(v.t)):
             return (z3.is_true(v.t),)
         if v.k == "none":
